@@ -34,6 +34,56 @@ P_OVER = ['^[a-z]+$', '^[a-z]$', '^a$', '^[0-9a-f]+$', '^[0-9]+$', '^.+$',
           '^[a-z]+\\-[a-z]+$', '^a.*$', '.*b', '[a-z0-9]{2}']
 E_OVER = ['a', 'b', 'ab', '1', '12', 'a1', 'a-b', 'Ab']
 
+# (c) expressions that begin / end with an escaped metacharacter as a constant
+# literal, next to an example that has such a string as a proper prefix /
+# suffix (a mis-anchored match then over-counts)
+METACHARS = ['$', '^', '.', '*', '+', '?', '(', ')', '[', ']', '{', '}', '|',
+             '\\']
+
+
+def meta_strings(m):
+    return ['U' + m, 'V' + m, 'U' + m + '5', m + 'U', m + 'V', '5' + m + 'U',
+            m, 'U' + m + m]
+
+
+def meta_patterns(m):
+    e = '\\' + m
+    return ['^[A-Z]%s$' % e, '^U%s5$' % e, '^%s[A-Z]$' % e,
+            '^[A-Z]%s.*$' % e]
+
+
+# (d) long examples: 98..101 character-class runs (MAX_GROUPS = 99: beyond it
+# rexpy falls back to '.'), with a line-break-like character inside
+LONG_RUNS = (98, 99, 100, 101)
+LONG_INS = [None, '\n', '\r', '\t', '\x0b', '\x0c', '\u2028']
+
+
+def long_sets(R, ins):
+    L = AB.long_string(R, ['a', '-'], ins)
+    L2 = AB.long_string(R, ['b', '.'])
+    plain = AB.long_string(R, ['a', '-'])
+    out = [[L], [L, 'a'], [L, L2], [L, L2, 'a-b'],
+           [L, AB.long_string(R + 1, ['b', '.'])]]
+    if ins is not None:
+        out += [[L, plain], [L, plain, 'x' + ins + 'y']]
+    return out
+
+
+LONG_FN_PATTERNS = ['^.+$', '^.{100}$', '^.{99,101}$', '^a.*\\-$']
+
+
+def long_fn_strings():
+    return [AB.long_string(100, ['a', '-']),
+            AB.long_string(100, ['a', '-'], '\n'),
+            AB.long_string(101, ['a', '-']),
+            AB.long_string(99, ['a', '-'], '\r'),
+            AB.long_string(100, ['b', '.'], '\u2028'), 'a']
+
+
+# (e) zero counts / None
+A_ZERO3 = ['', 'a', 'A', '1', 'a1', 'ab', '-', 'a-b', 'a b', ' a', 'é', '12',
+           'g', '_']
+
 PRUNE_OPTS = [{'max_patterns': 1}, {'min_strings_per_pattern': 2},
               {'max_patterns': 2, 'tag': True}]
 
@@ -104,6 +154,13 @@ class C18(Check):
         'defect) every figure is polluted (rexpy re-appends the failures); '
         'such cases are reported under one signature per C03 root cause '
         '(uncovered-example:neg-bracket / nonascii-digit / other)',
+        'a dictionary entry with count 0 was supplied zero times: it must '
+        'not be counted by any figure (dict and collections.Counter input); '
+        'negative counts are outside the documented domain ("should be '
+        'non-negative") and not enumerated; whether a None inside a list is '
+        'a supplied example is not said: both counts accepted; zero '
+        'frequencies are not passed to the module-level functions (an '
+        'Examples object with a zero frequency is the caller\'s construction)',
         'every case runs in a fresh instance of the rexpy module; a case '
         'using more than 20 s of CPU is reported as uncaught:CaseTimeout',
     ]
@@ -116,6 +173,12 @@ class C18(Check):
              ('n2', 'pairs x {1,2,3}^2 x 8 option points'),
              ('n3', 'triples x {1,2}^3 (thorough {1,2,3}^3), default '
                     'options, list and dict input alternating'),
+             ('meta', 'expressions beginning / ending in an escaped regex '
+                      'metacharacter + examples extending them (14 '
+                      'metacharacters x pairs and triples of 8 strings)'),
+             ('long', 'examples with 98..101 character-class runs, with and '
+                      'without a line-break-like character inside'),
+             ('zero', 'dict / Counter input with zero counts; None in lists'),
              ('overlap', 'rex_coverage / rex_incremental_coverage / '
                          'rex_full_incremental_coverage on overlapping '
                          'hand-made expression lists')]
@@ -145,8 +208,58 @@ class C18(Check):
             for xs in itertools.combinations(A18, 3):
                 yield {'x': list(xs), 'o': 0,
                        'F': 3 if tier == 'thorough' else 2}
+        elif layer == 'meta':
+            for m in METACHARS:
+                ms = meta_strings(m)
+                for n in (2, 3):
+                    for xs in itertools.combinations(ms, n):
+                        yield {'x': list(xs), 'o': 0, 'F': 2,
+                               'forms': 2 if n == 2 else 1}
+                for o in (3, 4):          # strip+remove_empties; tag+perl
+                    for xs in itertools.combinations(ms, 2):
+                        yield {'x': list(xs), 'o': o, 'F': 1, 'forms': 2}
+        elif layer == 'long':
+            for R in LONG_RUNS:
+                for ins in LONG_INS:
+                    for xs in long_sets(R, ins):
+                        yield {'x': xs, 'o': 0, 'F': 2 if len(xs) < 3 else 1}
+            for R in (99, 100):
+                for ins in (None, '\n'):
+                    for xs in long_sets(R, ins)[:3]:
+                        for o in (1, 4):
+                            yield {'x': xs, 'o': o, 'F': 1}
+        elif layer == 'zero':
+            for o in (0, 3):
+                for xs in itertools.combinations(A18, 2):
+                    yield {'x': list(xs), 'o': o, 'F': 2, 'fmin': 0,
+                           'forms': ['dict', 'counter']}
+            for xs in itertools.combinations(A_ZERO3, 3):
+                yield {'x': list(xs), 'o': 0, 'F': 2, 'fmin': 0,
+                       'forms': ['dict', 'counter'], 'alt': True}
+            for o in (0, 3):
+                for xs in itertools.combinations(A18, 2):
+                    yield {'x': list(xs), 'o': o, 'F': 2,
+                           'forms': ['list-none']}
         elif layer == 'overlap':
             th = tier == 'thorough'
+            for m in METACHARS:
+                ps = meta_patterns(m)
+                ms = meta_strings(m)[:4] + [meta_strings(m)[7]]
+                lists = [[p] for p in ps]
+                for a, b in itertools.combinations(ps, 2):
+                    lists += [[a, b], [b, a]]
+                for pl in lists:
+                    for n in (1, 2):
+                        for xs in itertools.combinations(ms, n):
+                            yield {'k': 'fn', 'p': pl, 'x': list(xs), 'F': 2}
+            ls = long_fn_strings()
+            lists = [[p] for p in LONG_FN_PATTERNS]
+            for a, b in itertools.combinations(LONG_FN_PATTERNS, 2):
+                lists += [[a, b], [b, a]]
+            for pl in lists:
+                for n in (1, 2):
+                    for xs in itertools.combinations(ls, n):
+                        yield {'k': 'fn', 'p': pl, 'x': list(xs), 'F': 2}
             for np_ in (1, 2, 3):
                 for ps in itertools.combinations(P_OVER, np_):
                     if th:
@@ -233,16 +346,36 @@ class C18(Check):
         sampled = 'size' in case
         n = len(xs)
         self.reset()
-        for fv in itertools.product(range(1, F + 1), repeat=n):
-            forms = ['list', 'dict'] if case.get('forms') == 2 \
-                else ['list' if sum(fv) % 2 else 'dict']
+        fmin = case.get('fmin', 1)
+        for fv in itertools.product(range(fmin, F + 1), repeat=n):
+            if fmin == 0 and 0 not in fv:
+                continue            # all-positive vectors: other layers
+            forms = case.get('forms')
+            if isinstance(forms, list):
+                if case.get('alt'):
+                    forms = [forms[sum(fv) % len(forms)]]
+            elif forms == 2:
+                forms = ['list', 'dict']
+            else:
+                forms = ['list' if sum(fv) % 2 else 'dict']
             for form in forms:
                 self.one(R, xs, list(fv), form, o, opts, pruning, sampled,
                          case.get('size'))
         return R
 
     def one(self, R, xs, fv, form, o, opts, pruning, sampled, sizeidx):
-        inp = AB.round_robin(xs, fv) if form == 'list' else dict(zip(xs, fv))
+        n_none = 0
+        if form == 'list':
+            inp = AB.round_robin(xs, fv)
+        elif form == 'list-none':
+            inp = AB.round_robin(xs, fv)
+            inp = inp[:1] + [None] + inp[1:] + [None]
+            n_none = 2
+        elif form == 'counter':
+            import collections
+            inp = collections.Counter(dict(zip(xs, fv)))
+        else:
+            inp = dict(zip(xs, fv))
         kw = dict(opts)
         if sampled:
             kw['size'] = self.rexpy.Size(**AB.SIZE_POINTS[sizeidx])
@@ -274,8 +407,8 @@ class C18(Check):
         rem = bool(opts.get('remove_empties'))
         kept, info = M.kept_examples(list(zip(xs, fv)), strip, rem)
         sub = {'freqs': fv, 'form': form}
-        base = {'input': inp if form == 'list' else {'dict': inp},
-                'options': opts}
+        base = {'input': inp if form.startswith('list')
+                else {form: dict(inp)}, 'options': opts}
         viols = []
 
         def bad(figure, clause, **d):
@@ -290,6 +423,11 @@ class C18(Check):
             if alt not in want:
                 R.unspec += 1
                 want.add(alt)
+            if n_none:
+                # whether a None in a list is a "supplied example" is not
+                # said: both counts accepted
+                R.unspec += 1
+                want |= set(w + (1 if dedup else n_none) for w in list(want))
             if got not in want:
                 bad('n_examples:dedup=%d' % dedup, 'n-examples-equals-supplied',
                     dedup=dedup, got=got, expected=sorted(want))
@@ -415,10 +553,10 @@ class C18(Check):
             base = {'patterns': ps, 'examples': list(kept.items())}
             sub = {'freqs': list(fv)}
             omitted = 0
+            fviols = []
 
             def bad(fig, clause, **d):
-                R.viol('functions:%s' % fig, clause, dict(base, **d),
-                       dict(sub, figure=fig))
+                fviols.append((fig, clause, d))
 
             for dedup in (False, True):
                 ex = rx.Examples(list(xs), list(fv))
@@ -479,6 +617,7 @@ class C18(Check):
                     if not M.non_increasing(sk):
                         bad(fig + ':order', 'incremental-non-increasing', **d)
                     omitted += len(ps) - len(keys)
+            self.emit(R, 'functions:', fviols, base, sub)
             if omitted:
                 R.unspec += 1
             R.out('fn:p=%d:x=%d:%s%s%s' % (
@@ -501,15 +640,37 @@ class C18(Check):
             unc0 = getattr(self, '_unc0', None)
             cls = uncovered_class(*unc0) if unc0 else 'other'
             unc = unc0[0] if unc0 else []
+        if unc and not (pruning and cls == 'other'):
+            for figure, clause, d in viols:
+                dd = dict(base)
+                dd.update(d, uncovered=unc, figure=figure)
+                R.viol('uncovered-example:%s' % cls, clause, dd,
+                       dict(sub, figure=figure))
+            return
+        self.emit(R, '', viols, base, sub)
+
+    @staticmethod
+    def emit(R, prefix, viols, base, sub):
+        """one violation per figure family; the signature says which figure
+        (coverage / incremental / full / n_examples) and whether the figures
+        that count repeats, the de-duplicated ones, or both are wrong"""
+        fams = {}
         for figure, clause, d in viols:
-            if unc and not (pruning and cls == 'other'):
-                sig = 'uncovered-example:%s' % cls
-                d = dict(d, uncovered=unc, figure=figure)
-            else:
-                sig = figure
+            fams.setdefault(figure.split(':')[0], []).append(
+                (figure, clause, d))
+        for fam in sorted(fams):
+            vs = fams[fam]
+            flags = set('dedup=1' in f for f, c, d in vs)
+            scope = ('both' if len(flags) == 2 else
+                     'dedup-only' if True in flags else 'with-repeats-only')
+            if not any('dedup=' in f for f, c, d in vs):
+                scope = 'any'
             dd = dict(base)
-            dd.update(d)
-            R.viol(sig, clause, dd, dict(sub, figure=figure))
+            dd.update(vs[0][2])
+            dd['failed'] = sorted(set(f for f, c, d in vs))
+            R.viol('%s%s:%s' % (prefix, fam, scope),
+                   '+'.join(sorted(set(c for f, c, d in vs))), dd,
+                   dict(sub, figure=fam))
 
 
 CHECK = C18()
